@@ -520,3 +520,50 @@ def dump(st, d):
     st.out['_unavailable'] = st.unavailable
     with open(os.path.join(d, '.probe.json'), 'w') as f:
         json.dump(st.out, f)
+
+
+# ---------------------------------------------------------------------------------------------------------------------
+def probe_contracts(st):
+    """icontract runtime contracts on the real classes (installed by setup.sh into /verif/.deps; optional):
+      * class invariant on MemoryZone: start <= current_address <= end + 1
+      * snapshot + postcondition on PackedBits.append_bits: the bit cursor advanced by exactly the field size plus the
+        padding byte alignment requires
+    The conditions record and return True (a raising contract would change the control flow it observes)."""
+    rec = {'available': False, 'invariant_evals': 0, 'post_evals': 0, 'broken': []}
+    st.out['contracts'] = rec
+    try:
+        import icontract
+        from bespokeasm.assembler.memory_zone import MemoryZone
+        from bespokeasm.assembler.bytecode.packed_bits import PackedBits
+    except Exception as e:
+        st.unavailable.append('contracts: ' + repr(e)[:80])
+        return
+    rec['available'] = True
+
+    def cursor_in_zone(self):
+        rec['invariant_evals'] += 1
+        if not (self.start <= self._current_address <= self.end + 1) and len(rec['broken']) < 20:
+            rec['broken'].append(['MemoryZone', self.name, self.start, self.end, self._current_address])
+        return True
+
+    class ContractBroken(Exception):
+        pass
+    icontract.invariant(cursor_in_zone, error=ContractBroken)(MemoryZone)
+
+    def bitpos(self):
+        return self._cur_byte_idx * 8 + (7 - self._cur_bit_idx)
+
+    def advanced_exactly(self, bit_size, byte_aligned, OLD):
+        rec['post_evals'] += 1
+        exp = OLD.pos
+        if byte_aligned and exp % 8:
+            exp += 8 - exp % 8
+        exp += bit_size
+        if bitpos(self) != exp and len(rec['broken']) < 20:
+            rec['broken'].append(['append_bits', OLD.pos, bitpos(self), bit_size, bool(byte_aligned)])
+        return True
+    PackedBits.append_bits = icontract.snapshot(bitpos, name='pos')(
+        icontract.ensure(advanced_exactly, error=ContractBroken)(PackedBits.append_bits))
+
+
+PROBES['contracts'] = probe_contracts
